@@ -87,9 +87,11 @@ structure S where
   sups : List Sup := []
   /-- ghost history: every `RpcReplyPort::send` that was performed, in order: (port id, value) -/
   sent : List (Nat × Nat) := []
+  /-- ghost: the actors each `multi_call` was asked to call, in request order (one list per group) -/
+  mreqs : List (List Nat) := []
   deriving Repr
 
-def init : S := { now := 0, actors := [], calls := [], groups := 0, sups := [], sent := [] }
+def init : S := { now := 0, actors := [], calls := [], groups := 0, sups := [], sent := [], mreqs := [] }
 
 /-- what the callee's handler does with a dequeued call -/
 inductive Act where
@@ -295,6 +297,22 @@ the ghost history of sends) -/
 def replyOn (s : S) (p v : Nat) : S :=
   { setCall s p (fun c => { c with loc := .replied v }) with sent := s.sent ++ [(p, v)] }
 
+/-! ### `multi_call` groups -/
+
+/-- the calls `multi_call` number `g` created, in port order = the order it sent them -/
+def groupMembers (s : S) (g : Nat) : List Call := s.calls.filter (fun c => c.group == some g)
+
+/-- a send of the group failed: `multi_call` returned `Err` at once (`?`), no result vector -/
+def failedRes (c : Call) : Bool := c.res == some .sendErr || c.res == some .abandoned
+def groupFailed (s : S) (g : Nat) : Bool := (groupMembers s g).any failedRes
+
+/-- every member has its result: the `JoinSet` is exhausted and `multi_call` returns -/
+def groupDone (s : S) (g : Nat) : Bool := (groupMembers s g).all (fun c => c.res.isSome)
+
+/-- The result vector `multi_call` returns: `results[i]` is written through the index `i` threaded
+into the `i`-th receiver's task (rpc.rs), i.e. it is the result of the `i`-th call sent. -/
+def groupResults (s : S) (g : Nat) : List (Option Res) := (groupMembers s g).map (·.res)
+
 def applyAct (s : S) (p : Nat) (holder : Nat) (act : Act) : S :=
   match act with
   | .reply v => replyOn s p v
@@ -318,7 +336,7 @@ def handleCore (s : S) (a : Nat) (act : Act) : S :=
 def stepCore (s : S) : Op → S
   | .spawn => { s with actors := s.actors ++ [{ alive := true, draining := false, mailbox := [], received := [], sup := none }] }
   | .call a t => (sendCall s a t none none).1
-  | .mcall as t => { sendMulti s s.groups t as with groups := s.groups + 1 }
+  | .mcall as t => { sendMulti s s.groups t as with groups := s.groups + 1, mreqs := s.mreqs ++ [as] }
   | .fcall a f t => (sendCall s a t none (some f)).1
   | .handle a act => handleCore s a act
   | .later p act =>
